@@ -1,5 +1,6 @@
 import Driver.Util
 import Driver.Varint
+import Driver.Sql
 
 def main (args : List String) : IO UInt32 := do
   let stdin ← IO.getStdin
@@ -7,4 +8,5 @@ def main (args : List String) : IO UInt32 := do
   -- buffered output: collect through a BufferedWriter-like approach (IO.FS.Stream is line buffered by the runtime)
   match args with
   | ["varint"] => Driver.loop stdin stdout () Driver.Varint.step; return 0
+  | ["sql"] => Driver.loop stdin stdout ([] : TurVerif.Sql.Db) Driver.Sql.step; return 0
   | _ => IO.eprintln "usage: tvmodel <family>"; return 2
